@@ -40,6 +40,8 @@ CONSTANTS
   Weak_QuorumGE,              \* tallied >= needed accepted (off by one at exactly 2/3)
   Weak_LightCountsNil,        \* VerifyCommitLight skips only absent slots: nil-flag signatures are tallied
   Weak_NoDoubleSignCheck,     \* VerifyCommitLightTrusting without the seenVals check
+  Weak_SeenByCommitSlotRange, \* seenVals sized by the COMMIT's length but indexed by the TRUSTED set's validator index:
+                              \* a trusted validator whose index is >= len(commit.Signatures) is never remembered
   Weak_NoBlockIDCheck,        \* VerifyCommit/Light do not compare the blockID argument with commit.BlockID
   Weak_SignBytesIgnoreRound   \* sign bytes do not bind the round
 
@@ -166,9 +168,13 @@ VCLTLoop(vs, c, chain, k, tallied, needed, seen) ==
        ELSE IF ~VerifySig(vs[vi].id, SignBytes(c, chain, s), s.sig) THEN RejectAt("wrongsig", k)
        ELSE LET t == NAdd(tallied, vs[vi].power) IN
             IF Crosses(t, needed) THEN Accept
-            ELSE VCLTLoop(vs, c, chain, k + 1, t, needed, seen \cup {vi})
+            ELSE VCLTLoop(vs, c, chain, k + 1, t, needed,
+                          \* seenVals[valIdx] = idx  (a map keyed by the validator's index in vs: any index is remembered)
+                          IF Weak_SeenByCommitSlotRange /\ vi > Len(c.sigs) THEN seen ELSE seen \cup {vi})
 
-\* no size / height / blockID argument: the commit's own height, round and block id are what is verified
+\* no size / height / blockID argument: the commit's own height, round and block id are what is verified.
+\* The commit belongs to ANOTHER validator set: its length and slot order are unrelated to vs, a slot's address
+\* may map to any index of vs (also to indices >= Len(c.sigs)) or to none
 VerifyCommitLightTrusting(vs, c, chain, num, den) ==
   IF den = N0 THEN Reject("zeroden")
   ELSE IF TotalPanics(vs) THEN Reject("panic_total")
